@@ -105,6 +105,8 @@ pub struct Case {
     #[serde(default)]
     pub ev_tape: Option<Tape>,
     #[serde(default)]
+    pub std_tape: Option<Tape>,
+    #[serde(default)]
     pub print_bits: u8,
     /// "clean" | "implicit" | "handmade"
     pub mode: String,
@@ -155,7 +157,7 @@ fn finding_of_kind(kind: &str) -> &'static str {
     }
 }
 
-fn raw_value(r: &mut Reader, size: char, range: Option<(i64, i64)>) -> u64 {
+fn raw_value(r: &mut Reader, size: char, range: Option<(i64, i64)>, picks: &[i64]) -> u64 {
     let bits = match size {
         'X' => 1,
         'B' => 8,
@@ -168,6 +170,9 @@ fn raw_value(r: &mut Reader, size: char, range: Option<(i64, i64)>) -> u64 {
     } else {
         (1u64 << bits) - 1
     };
+    if !picks.is_empty() {
+        return (picks[r.pick(picks.len())] as u64) & mask;
+    }
     if let Some((lo, hi)) = range {
         let v = r.range_i64(lo, hi);
         return (v as u64) & mask;
@@ -189,6 +194,7 @@ pub fn materialize(
     trace_tape: Tape,
     ext_tape: Tape,
     ev_tape: Tape,
+    std_tape: Tape,
     print_bits: u8,
     mode: &str,
 ) -> Case {
@@ -211,7 +217,8 @@ pub fn materialize(
     let mut r = Reader::new(&ext_tape);
     let has_conf = g.program.uses_configuration();
     let own_globals = has_conf || r.chance(1, 2);
-    let x = ext::generate(&mut r, implicit, open, own_globals);
+    let mut rs = Reader::new(&std_tape);
+    let x = ext::generate(&mut r, &mut rs, implicit, open, own_globals);
 
     // ---- source text
     let mut source = String::new();
@@ -334,7 +341,7 @@ pub fn materialize(
         if !x.inputs.is_empty() {
             for _ in 0..r.weighted(&[2, 3, 2, 1]) {
                 let i = &x.inputs[r.pick(x.inputs.len())];
-                let raw = raw_value(&mut r, i.size, i.range);
+                let raw = raw_value(&mut r, i.size, i.range, &i.picks);
                 let via_debug = i.size == 'X' && r.chance(1, 4);
                 events.push(Event::Io {
                     addr: i.addr.clone(),
@@ -451,6 +458,7 @@ pub fn materialize(
         trace_tape: Some(trace_tape),
         ext_tape: Some(ext_tape),
         ev_tape: Some(ev_tape),
+        std_tape: Some(std_tape),
         print_bits,
         mode: mode.to_string(),
         source,
@@ -663,6 +671,8 @@ fn check_case(case: &Case, probe: &mut Probe) -> Result<(), String> {
             kinds.insert("initialiser");
         } else if l.starts_with("for-first-write:") {
             kinds.insert("for-first-write");
+        } else if l.starts_with("std-functions") {
+            kinds.insert("std-function");
         } else if l.starts_with("decl-sites") {
             kinds.insert("declaration-sites");
         } else if l.starts_with("for:") {
@@ -854,18 +864,19 @@ pub fn case_strategy(mode: &'static str) -> impl Strategy<Value = Case> {
     (
         tape_strategy(700),
         tape_strategy(60),
-        tape_strategy(260),
+        tape_strategy(300),
         tape_strategy(90),
+        tape_strategy(400),
         0u8..8,
     )
-        .prop_map(move |(p, t, x, ev, bits)| {
+        .prop_map(move |(p, t, x, ev, sd, bits)| {
             let print_bits = match bits {
                 0 => 1,
                 1 => 2,
                 2 => 3,
                 _ => 0,
             };
-            materialize(p, t, x, ev, print_bits, mode)
+            materialize(p, t, x, ev, sd, print_bits, mode)
         })
 }
 
